@@ -96,7 +96,8 @@ def buildStep (g : GState) (op : GOp) : GState :=
   | .retries t n =>
     match retrieveOrAdd g t with
     | .error e => { g with errs := g.errs ++ [e] }
-    | .ok (g1, v) => g1.modify v fun x => { x with retries := n }
+    -- `TaskRetries`: a negative number means no retries (the task still runs once)
+    | .ok (g1, v) => g1.modify v fun x => { x with retries := if n < 0 then 0 else n }
 
 def buildGraph (ops : List GOp) : GState := ops.foldl buildStep {}
 
